@@ -9,4 +9,5 @@ done
 rm -f /tmp/sany.$$
 /venv/bin/python -c "import sys; sys.path.insert(0,'/repo'); import BPTK_Py" 2>/dev/null || { echo "cannot import BPTK_Py"; rc=1; }
 mkdir -p evidence cache
+/venv/bin/python harness/warm.py || rc=1
 exit $rc
